@@ -313,6 +313,139 @@ def run_dynamic_orders(_):
     return part.result()
 
 
+# ---- the declared type of the variable whose initialiser / size / bound holds the expression ---------------------------------
+# A type is a base, 0-3 array dimensions (each of size 2) cut into groups; every group but the last is a typedef of its own, the
+# last group stands either on the variable or in one more typedef; prefixes on the variable and on the innermost typedef.
+BASES = {"int": ("int", lambda e: e), "ranged": ("int[0, 9]", lambda e: "(%s) & 1" % e), "typedef-int": ("ti_t", lambda e: e),
+         "record": ("rec_t", lambda e: "{ %s, 0 }" % e)}
+BASE_DECL = "typedef int ti_t; typedef struct { int f; int g; } rec_t;\n"
+
+
+def compositions(n):
+    if n == 0:
+        return [[]]
+    return [[h] + t for h in range(1, n + 1) for t in compositions(n - h)]
+
+
+def type_shapes(max_depth):
+    out = []
+    for depth in range(0, max_depth + 1):
+        for groups in compositions(depth):
+            for last_on_variable in ((True, False) if groups else (True,)):
+                for vprefix in ("", "const ", "meta "):
+                    for iprefix in (("", "const ") if (len(groups) > 1 or (groups and not last_on_variable)) else ("",)):
+                        out.append((depth, tuple(groups), last_on_variable, vprefix, iprefix))
+    return out
+
+
+def declare(shape, base, place, e, filler):
+    """(typedefs, variable declaration) with the int valued expression e at `place`; None if the shape has no such place"""
+    depth, groups, on_var, vprefix, iprefix = shape
+    btext, leaf = BASES[base]
+    used = [False]
+
+    def size(where):
+        if place == where and not used[0]:
+            used[0] = True
+            return "(%s) * 0 + 2" % e
+        return "2"
+    if place == "range-bound":
+        if base != "ranged":
+            return None
+        btext = "int[0, (%s) * 0 + 9]" % e
+        used[0] = True
+    tds, cur = [], btext
+    inner = list(groups[:-1]) if on_var else list(groups)
+    # groups are listed outermost first: the innermost group is declared first
+    for n, g in enumerate(reversed(inner)):
+        name = "t%d_t" % n
+        dims = "".join("[%s]" % size("typedef-size" if n == 0 else "outer-typedef-size") for _ in range(g))
+        tds.append("typedef %s%s %s%s;" % (iprefix if n == 0 else "", cur, name, dims))
+        cur = name
+    vdims = "".join("[%s]" % size("variable-size") for _ in range(groups[-1])) if (groups and on_var) else ""
+    if place in ("typedef-size", "outer-typedef-size", "variable-size") and not used[0]:
+        return None
+
+    def init(d, path):
+        if d == depth:
+            first, last = all(i == 0 for i in path), all(i == 1 for i in path)
+            if (place == "init-first" and first and not used[0]) or (place == "init-last" and last and (depth > 0 or not used[0])):
+                used[0] = True
+                return leaf(e)
+            return leaf(filler)
+        return "{ " + ", ".join(init(d + 1, path + [i]) for i in range(2)) + " }"
+    need_init = place.startswith("init") or vprefix == "const " or iprefix == "const "
+    text = "%s%s q%s%s;" % (vprefix, cur, vdims, (" = " + init(0, [])) if need_init else "")
+    if place.startswith("init") and not used[0]:
+        return None
+    return "\n".join(tds), text
+
+
+TYPE_PLACES = ["init-first", "init-last", "variable-size", "typedef-size", "outer-typedef-size", "range-bound"]
+TYPE_FORMS = ["assign=", "post++", "array-element", "struct-field", "call-writer", "call-chain-3", "stmt-for-body", "ref-param-write"]
+
+
+def type_items(thorough):
+    forms = [f for f in write_forms() if f[0] in TYPE_FORMS or thorough and (f[0].startswith(("stmt-", "fn-", "ref-", "call-", "pre", "post", "assign")))]
+    shapes = type_shapes(3)
+    items = []
+    for shape in shapes:
+        for base in BASES:
+            if shape[0] == 3 and base in ("typedef-int",) and not thorough:
+                continue
+            for place in TYPE_PLACES:
+                if declare(shape, base, place, "1", "0") is None:
+                    continue
+                items.append((shape, base, place))
+    return forms, items
+
+
+def run_types(arg):
+    """the writing expression in the initialiser, an array size or the range bound of a variable of every declared-type shape: the
+    visitor that checks these dispatches on the variable's type with all array dimensions peeled off, whatever typedef names and
+    prefixes sit between the dimensions"""
+    thorough, shard, nshards = arg
+    part = engine.Part()
+    w = engine.worker("fast")
+    forms, items = type_items(thorough)
+    docs, meta = [], []
+    for n, (shape, base, place) in enumerate(items):
+        if n % nshards != shard:
+            continue
+        sid = "d%d:%s:%s:%s%s" % (shape[0], "+".join(map(str, shape[1])) or "-", "on-variable" if shape[2] else "all-in-typedefs",
+                                  (shape[3].strip() or "plain"), ":inner-const" if shape[4] else "")
+        for scope in ("global", "template-local", "typedefs-local-too"):
+            for fid, decl, we, re_, rk in forms:
+                for role, e in (("write", we), ("twin", rk)):
+                    td, v = declare(shape, base, place, e, "0")
+                    g = GDECL + BASE_DECL + decl
+                    if scope == "global":
+                        doc = X.nta(g + td + "\n" + v, [T()], SYS)
+                    elif scope == "template-local":
+                        doc = X.nta(g + td, [T(decl=v)], SYS)
+                    else:
+                        doc = X.nta(g, [T(decl=td + "\n" + v)], SYS)
+                    docs.append(doc)
+                    meta.append(("%s:%s:%s:%s:%s" % (scope, sid, base, place, fid), role, v))
+    res = X.run_docs(w, docs, want=["noinv"], batch=50)
+    for (key, role, v), doc, r in zip(meta, docs, res):
+        part.count()
+        rp = {"op": "xml", "buf": doc}
+        if engine.check_crash(part, PID, r, key, rp):
+            continue
+        part.nontrivial_case("declared-type:%s:%s" % (key, role))
+        acc = X.accepted(r)
+        if role == "write" and acc:
+            part.outcome("write-accepted")
+            part.violation("write-accepted:declared-type:" + key, "`%s`: the declaration writes a variable but the model is accepted" % v, rp)
+        elif role == "twin" and not acc:
+            part.outcome("twin-rejected")
+            part.violation("twin-rejected:declared-type:" + key, "`%s`: the twin that reads constants only is rejected: %s" % (v, X.msgs(r)[:2]), rp)
+        else:
+            part.outcome("write-rejected" if role == "write" else "twin-accepted")
+    return part.result()
+
+
 def run_process_queries(_):
     """queries that call template-local functions through a process (P1.f()) or an element of a process set (T(1).f())"""
     part = engine.Part()
@@ -375,6 +508,9 @@ def main():
     rep.merge(run_shadowed(None))
     rep.merge(run_dynamic_orders(None))
     rep.merge(run_process_queries(None))
+    thorough = engine.tier() == 'thorough'
+    for res in engine.pmap(run_types, [(thorough, i, 32) for i in range(32)]):
+        rep.merge(res)
     rep.assumptions = ["in compile-time contexts the twin reads constants only (a read of a variable is rejected there for C13's reason)",
                        "small scope: call chains up to depth 3, one representative per statement form"]
     sys.exit(rep.finish())
